@@ -55,6 +55,11 @@ func c19Patch(r *rand.Rand, kind string) (text string, line int, cols []int, cha
 			for i := 0; i < r.Intn(3); i++ {
 				lines = append(lines, "")
 			}
+		} else if r.Intn(2) == 0 {
+			// the file begins with blank or white-space-only lines: they count
+			for i := 0; i < 1+r.Intn(4); i++ {
+				lines = append(lines, []string{"", "", "  ", "\t"}[r.Intn(4)])
+			}
 		}
 		pre += noise(3)
 		// header
